@@ -211,11 +211,11 @@ PROPS = {
                      "a user filter's verdict is assumed to be a function of the k-mer only (no hidden state).",
                 technique="postconditions with abstract filter predicate + bounded exhaustive order-2 masks"),
     "C12": dict(title="The local filter implements its window predicate", level="other", bounded=["C12"], design="8/C12",
-                proof=["dsw.biofilter.LocalBioFilter.valid#norun-nogc-none-whole", "dsw.biofilter.LocalBioFilter.valid#norun-nogc-none-last", "dsw.biofilter.LocalBioFilter.valid#norun-nogc-0-whole", "dsw.biofilter.LocalBioFilter.valid#norun-nogc-0-last", "dsw.biofilter.LocalBioFilter.valid#norun-nogc-1-whole", "dsw.biofilter.LocalBioFilter.valid#norun-nogc-1-last", "dsw.biofilter.LocalBioFilter.valid#norun-nogc-2-whole", "dsw.biofilter.LocalBioFilter.valid#norun-nogc-2-last", "dsw.biofilter.LocalBioFilter.valid#norun-gc-none-whole", "dsw.biofilter.LocalBioFilter.valid#norun-gc-none-last", "dsw.biofilter.LocalBioFilter.valid#norun-gc-0-whole", "dsw.biofilter.LocalBioFilter.valid#norun-gc-0-last", "dsw.biofilter.LocalBioFilter.valid#norun-gc-1-whole", "dsw.biofilter.LocalBioFilter.valid#norun-gc-1-last", "dsw.biofilter.LocalBioFilter.valid#norun-gc-2-whole", "dsw.biofilter.LocalBioFilter.valid#norun-gc-2-last", "dsw.biofilter.LocalBioFilter.valid#run-nogc-none-whole", "dsw.biofilter.LocalBioFilter.valid#run-nogc-none-last", "dsw.biofilter.LocalBioFilter.valid#run-nogc-0-whole", "dsw.biofilter.LocalBioFilter.valid#run-nogc-0-last", "dsw.biofilter.LocalBioFilter.valid#run-nogc-1-whole", "dsw.biofilter.LocalBioFilter.valid#run-nogc-1-last", "dsw.biofilter.LocalBioFilter.valid#run-nogc-2-whole", "dsw.biofilter.LocalBioFilter.valid#run-nogc-2-last", "dsw.biofilter.LocalBioFilter.valid#run-gc-none-whole", "dsw.biofilter.LocalBioFilter.valid#run-gc-none-last", "dsw.biofilter.LocalBioFilter.valid#run-gc-0-whole", "dsw.biofilter.LocalBioFilter.valid#run-gc-0-last", "dsw.biofilter.LocalBioFilter.valid#run-gc-1-whole", "dsw.biofilter.LocalBioFilter.valid#run-gc-1-last", "dsw.biofilter.LocalBioFilter.valid#run-gc-2-whole", "dsw.biofilter.LocalBioFilter.valid#run-gc-2-last", "harness.c12_rc_code_is_reverse_complement"] +
+                proof=["dsw.biofilter.LocalBioFilter.valid#norun-nogc-none-whole", "dsw.biofilter.LocalBioFilter.valid#norun-nogc-none-last", "dsw.biofilter.LocalBioFilter.valid#norun-nogc-0-whole", "dsw.biofilter.LocalBioFilter.valid#norun-nogc-0-last", "dsw.biofilter.LocalBioFilter.valid#norun-nogc-1-whole", "dsw.biofilter.LocalBioFilter.valid#norun-nogc-1-last", "dsw.biofilter.LocalBioFilter.valid#norun-nogc-2-whole", "dsw.biofilter.LocalBioFilter.valid#norun-nogc-2-last", "dsw.biofilter.LocalBioFilter.valid#norun-gc-none-whole", "dsw.biofilter.LocalBioFilter.valid#norun-gc-none-last", "dsw.biofilter.LocalBioFilter.valid#norun-gc-0-whole", "dsw.biofilter.LocalBioFilter.valid#norun-gc-0-last", "dsw.biofilter.LocalBioFilter.valid#norun-gc-1-whole", "dsw.biofilter.LocalBioFilter.valid#norun-gc-1-last", "dsw.biofilter.LocalBioFilter.valid#norun-gc-2-whole", "dsw.biofilter.LocalBioFilter.valid#norun-gc-2-last", "dsw.biofilter.LocalBioFilter.valid#run-nogc-none-whole", "dsw.biofilter.LocalBioFilter.valid#run-nogc-none-last", "dsw.biofilter.LocalBioFilter.valid#run-nogc-0-whole", "dsw.biofilter.LocalBioFilter.valid#run-nogc-0-last", "dsw.biofilter.LocalBioFilter.valid#run-nogc-1-whole", "dsw.biofilter.LocalBioFilter.valid#run-nogc-1-last", "dsw.biofilter.LocalBioFilter.valid#run-nogc-2-whole", "dsw.biofilter.LocalBioFilter.valid#run-nogc-2-last", "dsw.biofilter.LocalBioFilter.valid#run-gc-none-whole", "dsw.biofilter.LocalBioFilter.valid#run-gc-none-last", "dsw.biofilter.LocalBioFilter.valid#run-gc-0-whole", "dsw.biofilter.LocalBioFilter.valid#run-gc-0-last", "dsw.biofilter.LocalBioFilter.valid#run-gc-1-whole", "dsw.biofilter.LocalBioFilter.valid#run-gc-1-last", "dsw.biofilter.LocalBioFilter.valid#run-gc-2-whole", "dsw.biofilter.LocalBioFilter.valid#run-gc-2-last", "dsw.biofilter.LocalBioFilter.valid#norun-nogc-3-whole", "dsw.biofilter.LocalBioFilter.valid#norun-nogc-3-last", "dsw.biofilter.LocalBioFilter.valid#norun-gc-3-whole", "dsw.biofilter.LocalBioFilter.valid#norun-gc-3-last", "dsw.biofilter.LocalBioFilter.valid#run-nogc-3-whole", "dsw.biofilter.LocalBioFilter.valid#run-nogc-3-last", "dsw.biofilter.LocalBioFilter.valid#run-gc-3-whole", "dsw.biofilter.LocalBioFilter.valid#run-gc-3-last", "harness.c12_rc_code_is_reverse_complement"] +
                       ["harness.c12_%s_%s_%s_%s" % (d_, "run" if r_ else "norun", "gc" if g_ else "nogc", "none" if m_ is None else m_)
-                       for r_ in (False, True) for g_ in (False, True) for m_ in (None, 0, 1, 2) for d_ in ("window_of_valid", "valid_of_windows", "revcomp")],
+                       for r_ in (False, True) for g_ in (False, True) for m_ in (None, 0, 1, 2, 3) for d_ in ("window_of_valid", "valid_of_windows", "revcomp")],
                 explanation="PROVED on the real LocalBioFilter.valid, for strings over ANY alphabet and every configuration shape (run limit present/absent x "
-                            "GC range present/absent x motif list None / 0..2 motifs (each motif an arbitrary string) x whole-sequence / last-window): the "
+                            "GC range present/absent x motif list None / 0..3 motifs (each motif an arbitrary string) x whole-sequence / last-window): the "
                             "verdict equals filter_ok = all characters A/C/G/T, no nucleotide repeated run+1 times, neither a motif nor the reverse "
                             "complement the code computes occurs (substring test = predicate occ), every window of the observed length has G+C within "
                             "[lo*k, hi*k] (shorter string: G+C <= hi*k and A+T <= (1-lo)*k), with the float products as the opaque terms the code itself "
@@ -230,10 +230,10 @@ PROPS = {
                             "conversely): occurrences are mirrored (run of c <-> run of comp(c), motif <-> its computed reverse complement), G+C and A+T "
                             "counts of mirrored windows are equal (inductive lemmas cnt_split, cnt_revcomp).  OPEN KNOWN FINDING (excluded by the lemma's "
                             "precondition, reported by the bounded tier): with a lower-case motif the verdict is NOT reverse-complement invariant.  BOUNDED: "
-                            "motif lists longer than two motifs (the contracts are per configuration shape).",
-                demoted=["motif lists longer than 2 motifs - same loop body, bounded B2",
+                            "motif lists longer than three motifs (the contracts are per configuration shape).",
+                demoted=["motif lists longer than 3 motifs - same loop body, bounded B2",
                          "reverse-complement invariance for motifs outside A/C/G/T - open known finding (lower-case letters), bounded B2 for the rest"],
-                claim="Deductive for all three sentences of the statement on configurations with at most two motifs (reverse-complement invariance: motifs over "
+                claim="Deductive for all three sentences of the statement on configurations with at most three motifs (reverse-complement invariance: motifs over "
                       "A/C/G/T); one open known finding; longer motif lists bounded - hence 'other'.",
                 note="Trusted: str.replace/upper/[::-1]/count contracts (DESIGN 2), `m in s` = 'some position of s matches m' (the definition the window lemma uses); "
                      "machine floats not reasoned about (opaque products shared by code and spec).",
